@@ -11,6 +11,6 @@ printf '%s\n' "$@" | xargs -P 10 -I{} sh -c '/venv/bin/python -m agilint check {
 for p in "$@"; do
   rc=$(cat /tmp/try_${tag}_$p.rc)
   echo "== $p rc=$rc"; grep -A4 "^VIOLATION\|^ANALYSIS" /tmp/try_${tag}_$p.out | grep -v "^  rule" | head -12
-  cp /tmp/try_${tag}_$p.out /tmp/try_$p.out; rm -f /tmp/try_${tag}_$p.out /tmp/try_${tag}_$p.rc
+  cp /tmp/try_${tag}_$p.out /tmp/try_$p.out; [ -n "$TRY_OUT" ] && [ "$rc" != 0 ] && cp /tmp/try_${tag}_$p.out ${TRY_OUT}_$p.out; rm -f /tmp/try_${tag}_$p.out /tmp/try_${tag}_$p.rc
 done
 git -C /repo checkout -- .
